@@ -98,15 +98,19 @@ func C05(p *load.Prog, r *report.Report) {
 			return []absint.Value{ptr(m.newElem(it, "P", P1.X, P1.Y, P1.Z))}
 		}, func(res *absint.PathResult) {
 			name := "IsIdentity(P)"
-			if res.Exit != "return" || len(res.Guards) > 0 {
+			if res.Exit != "return" {
 				r.Undecided("C05.identity", name, p.Pos(fn.Pos()), res.Exit+" "+res.Abort+" "+guardString(res))
 				return
 			}
 			if reportEvents(p, r, "C05.identity", name, res) {
 				return
 			}
+			// checked path by path: on each path both the result and [Z = 0] are specialised to the path's constraints
 			got, ok := retTerm(res.It, res.Ret)
-			want := absint.ISZ(P1.Z)
+			if ok {
+				got = res.It.DeepApplyTerm(got)
+			}
+			want := res.It.DeepApplyTerm(absint.ISZ(P1.Z))
 			r.Check(ok && got.Equal(want), "C05.identity", name, p.Pos(fn.Pos()), "result = [Z = 0]", fmt.Sprintf("result is %s, expected %s", absint.Show(res.Ret), want))
 		})
 	} else {
